@@ -2,14 +2,20 @@ import RsslVerif.Model.MslDup
 /-!
 # C02 — what "evaluating an operand once" means, for every meaning of calls and operators
 
-A deliberately weak reading of the typed IR, enough to say what repetition of an operand can change: a small set of
-constructors (`strictPure`) evaluates its operand fields left to right and then computes a value from its payload, the
-operand values and the store *without writing*; every other constructor (operators — assignments, `++` —, calls, `?:`,
-sequences) is an arbitrary function of its fields and the store (`Interp.other`: it may run its operands in any order,
-any number of times, and write anything).  The theorems of `Thm/C02Dup` hold for every `Interp`.
+A deliberately weak reading of the typed IR, enough to say what repetition (or reordering) of an operand can change:
+* a small set of constructors (`strictPure`) evaluates its operand fields left to right and then computes a value from its
+  payload, the operand values and the store *without writing*;
+* an `IntrinsicOp` whose operator is in `pureOps` (the arithmetic, bitwise, comparison and boolean operators: everything but
+  increments, assignments and the helper / mesh forms) evaluates its operands left to right, may stop after any of them
+  (`Interp.early`: the short circuit of `&&` / `||` — allowed for every operator, which only makes the reading weaker) and
+  computes its value without writing;
+* `TernaryConditional` evaluates its condition and then ONE of the two other operands (`Interp.choose`);
+* every other constructor (assignments, `++`, calls, sequences, object members) is an arbitrary function of its fields and
+  the store (`Interp.other`: it may run its operands in any order, any number of times, and write anything).
+The theorems of `Thm/C02Dup` hold for every `Interp`.
 -/
 namespace RsslVerif.Spec.MslDup
-open RsslVerif.Gen.MslDupSites RsslVerif.Model.MslDup
+open RsslVerif.Gen.MslDupSites RsslVerif.Gen.MslGenTables RsslVerif.Model.MslDup
 
 /-- constructors of `ir::Expression` whose own step has no effect and runs every operand exactly once: leaves, member /
 element / component selection, conversions, numeric constructors, `sizeof` -/
@@ -17,9 +23,27 @@ def strictPure : List String :=
   ["Literal", "Variable", "MemberVariable", "Global", "ConstantVariable", "EnumValue", "Swizzle", "MatrixSwizzle",
    "ArraySubscript", "StructMember", "ObjectMember", "Cast", "SizeOf", "Constructor"]
 
+/-- operators of `ir::IntrinsicOp` without an effect of their own (our reading; the others: `++` / `--`, the assignments,
+`MakeSigned*`, `MeshOutput*`) -/
+def pureOps : List String :=
+  ["Plus", "Minus", "LogicalNot", "BitwiseNot", "Add", "Subtract", "Multiply", "Divide", "Modulus", "LeftShift", "RightShift",
+   "BitwiseAnd", "BitwiseOr", "BitwiseXor", "BooleanAnd", "BooleanOr", "LessThan", "LessEqual", "GreaterThan", "GreaterEqual",
+   "Equality", "Inequality"]
+
+/-- the operator with index `p` in `intrinsicOpNames` is one of `pureOps` -/
+def pureOpIdx (p : Nat) : Bool :=
+  match RsslVerif.Gen.MslGenTables.intrinsicOpNames[p]? with
+  | some n => pureOps.contains n
+  | none => false
+
 structure Interp (Val Store : Type) where
-  /-- a strict pure constructor's step: payload, operand values, the store (read only); `none` = undefined -/
+  /-- a strict pure constructor's step (also the final step of a pure operator): payload, operand values, the store (read
+  only); `none` = undefined -/
   step : String → List Nat → List Val → Store → Option Val
+  /-- a pure operator (index in `intrinsicOpNames`) may produce its value after the operands evaluated so far -/
+  early : Nat → List Val → Store → Option Val
+  /-- which branch a condition value selects -/
+  choose : Val → Option Bool
   /-- any other constructor -/
   other : String → DFields → Store → Option (Val × Store)
 
@@ -34,7 +58,32 @@ def eval (I : Interp Val Store) : DExpr → Store → Option (Val × Store)
       | some (vs, σ1) => match I.step c fs.payloads vs σ1 with
         | none => none
         | some v => some (v, σ1)
+    else if c = "IntrinsicOp" then
+      match fs with
+      | .payload p (.many es .nil) => if pureOpIdx p then evalLazy I p es [] σ else I.other c fs σ
+      | _ => I.other c fs σ
+    else if c = "TernaryConditional" then
+      match fs with
+      | .one cond (.one t (.one f .nil)) =>
+        match eval I cond σ with
+        | none => none
+        | some (v, σ1) =>
+          match I.choose v with
+          | none => none
+          | some true => eval I t σ1
+          | some false => eval I f σ1
+      | _ => I.other c fs σ
     else I.other c fs σ
+/-- the operands of a pure operator, left to right; the operator may produce its value after any of them -/
+def evalLazy (I : Interp Val Store) (p : Nat) : DExprs → List Val → Store → Option (Val × Store)
+  | .nil, acc, σ => (I.step "IntrinsicOp" [p] acc σ).map (fun v => (v, σ))
+  | .cons e r, acc, σ =>
+    match eval I e σ with
+    | none => none
+    | some (v, σ1) =>
+      match I.early p (acc ++ [v]) σ1 with
+      | some w => some (w, σ1)
+      | none => evalLazy I p r (acc ++ [v]) σ1
 def evalFields (I : Interp Val Store) : DFields → Store → Option (List Val × Store)
   | .nil, σ => some ([], σ)
   | .payload _ r, σ => evalFields I r σ
@@ -97,5 +146,46 @@ def Sound (rows : List GuardRow) : Bool :=
     match ctorOf r.ctor with
     | none => false
     | some k => k.arity == r.arity && k.exprFields.all (fun j => r.recursed.contains j))
+
+/-- a row of a local test of the floating-point `%=` arm is sound: the constructor is strict and pure, or `?:`, or an
+`IntrinsicOp` restricted to operators without an effect of their own; and EVERY expression-typed field of the constructor
+is handed to one of the tests -/
+def soundRow (r : PlaceRow) : Bool :=
+  match ctorOf r.ctor with
+  | none => false
+  | some k =>
+    k.arity == r.arity && k.exprFields.all (fun j => r.self.contains j || r.other.contains j || r.allOf.contains j) &&
+      (if r.ops.isEmpty then strictPure.contains r.ctor || (r.ctor == "TernaryConditional" && r.allOf.isEmpty)
+       else r.ctor == "IntrinsicOp" && r.ops.all pureOps.contains && r.self.isEmpty && r.other.isEmpty)
+
+/-- every table of a chain of tests (`is_plain_place` → `is_plain_index`; `is_free_of_writes`) is sound -/
+def SoundTabs (tabs : List (List PlaceRow)) : Bool := tabs.all (fun rows => rows.all soundRow)
+
+/-- the clauses of the braced list a struct cast is written as: the operand itself, or the operand below a cast to the
+element's type (`Cast(member_type, expr)`, payload = the type) -/
+def clauseExpr (e : DExpr) : Clause → DExpr
+  | .copy => e
+  | .convert t => .node "Cast" (.payload t (.one e .nil))
+
+/-- the clauses evaluated left to right -/
+def evalClauses (I : Interp Val Store) (e : DExpr) : List Clause → Store → Option (List Val × Store)
+  | [], σ => some ([], σ)
+  | c :: cs, σ =>
+    match eval I (clauseExpr e c) σ with
+    | none => none
+    | some (v, σ1) => match evalClauses I e cs σ1 with
+      | none => none
+      | some (vs, σ2) => some (v :: vs, σ2)
+
+/-- the value a clause has when the operand's value is `v` and evaluating the operand leaves the store `σ` -/
+def clauseVal (I : Interp Val Store) (v : Val) (σ : Store) : Clause → Option Val
+  | .copy => some v
+  | .convert t => I.step "Cast" [t] [v] σ
+
+def mapOptL {α β : Type} (f : α → Option β) : List α → Option (List β)
+  | [] => some []
+  | a :: r => match f a, mapOptL f r with
+    | some b, some l => some (b :: l)
+    | _, _ => none
 
 end RsslVerif.Spec.MslDup
